@@ -218,6 +218,92 @@ def ob_session(a: int, b: int) -> bool:
     return log[0][0] == 'on_update_error'
 
 
+def _label3(label, bos=1):
+    v = label * 16 + bos
+    return bytes([v // 65536, (v // 256) % 256, v % 256])
+
+
+V6 = {'2001:db8:1:2:3:4:5:6': '20010db8000100020003000400050006', 'ffff:ffff:ffff:ffff:ffff:ffff:ffff:ffff': 'ff' * 16,
+      '::': '00' * 16}
+
+
+def _v6_text(addr_hex, plen):
+    import ipaddress
+    v = int(addr_hex, 16)
+    k = 2 ** (128 - plen)
+    return '%s/%d' % (ipaddress.IPv6Address((v // k) * k).compressed, plen)
+
+
+def _masked(oo, plen):
+    """the ceil(plen/8) octets of a prefix with the bits after plen cleared (for the MP families the statement does not
+    ask for non-zero trailing bits; only the IPv4 unicast fields are exercised with them, see ob_prefixes)"""
+    n = (plen + 7) // 8
+    out = list(oo[:n])
+    if plen % 8:
+        k = 2 ** (8 - plen % 8)
+        out[-1] = (out[-1] // k) * k
+    return out
+
+
+def ob_mp(l1: int, ra: int, rb: int, x: int, y: int, z: int) -> bool:
+    """MP_REACH_NLRI / MP_UNREACH_NLRI written by the reference encoder (RFC 4760 / 8277 / 4364): family, number of
+    routes (0 = none at all; MP_UNREACH with none is the End-of-RIB marker), extended-length flag, trailing bits."""
+    from yabgp.message.update import Update
+    fam, n, reach = P['family'], P['n'], P['dir'] == 'reach'
+    assume(1 <= l1 < 2 ** 20 and 0 <= ra < 65536 and 0 <= rb < 2 ** 32)
+    o = octs([x, y, z]) + [1]
+    routes, texts = b'', []
+    for i in range(n):
+        plen = P['plens'][i]
+        oo = [o[(j + i) % 4] for j in range(4)]
+        if fam == 'ipv6':
+            hx = list(V6.values())[i % len(V6)]
+            routes += bytes([plen]) + bytes(_masked(list(bytes.fromhex(hx)), plen))
+            texts.append(_v6_text(hx, plen))
+        elif fam == 'lu4':
+            lab = _label3(l1 + i) if reach else bytes([0x80, 0, 0])
+            routes += bytes([24 + plen]) + lab + bytes(_masked(oo, plen))
+            texts.append({'prefix': E.masked_text(oo, plen), 'label': [l1 + i] if reach else [524288]})
+        elif fam == 'vpnv4':
+            lab = _label3(l1 + i) if reach else bytes([0x80, 0, 0])
+            routes += bytes([88 + plen]) + lab + bytes([0, 0]) + E.u16(ra) + E.u32(rb) + bytes(_masked(oo, plen))
+            texts.append({'label': [l1 + i] if reach else [524288], 'rd': '%s:%s' % (ra, rb),
+                          'prefix': E.masked_text(oo, plen)})
+        else:
+            raise AssertionError(fam)
+    afi, safi = {'ipv6': (2, 1), 'lu4': (1, 4), 'vpnv4': (1, 128), 'vpnv6': (2, 128), 'evpn': (25, 70),
+                 'flowspec': (1, 133)}[fam]
+    if reach:
+        if fam == 'ipv6':
+            nh, nh_exp = bytes.fromhex('20010db8000000000000000000000001'), '2001:db8::1'
+        elif fam in ('vpnv4',):
+            nh, nh_exp = bytes(8) + bytes([10, 0, 0, 9]), {'rd': '0:0', 'str': '10.0.0.9'}
+        elif fam == 'vpnv6':
+            nh, nh_exp = bytes(8) + bytes.fromhex('20010db8000000000000000000000009'), {'rd': '0:0', 'str': '2001:db8::9'}
+        elif fam == 'flowspec':
+            nh, nh_exp = b'', ''
+        else:
+            nh, nh_exp = bytes([10, 0, 0, 9]), '10.0.0.9'
+        value = E.u16(afi) + bytes([safi, len(nh)]) + nh + bytes([0]) + routes
+        blob = E.attr(14, value, ext=P.get('ext', False))
+    else:
+        value = E.u16(afi) + bytes([safi]) + routes
+        blob = E.attr(15, value, ext=P.get('ext', False))
+    blob = E.origin(0) + blob + E.med(rb)
+    out = Update.parse(None, E.update_body(b'', blob, b''), True, {})
+    cover('parsed')
+    if out['sub_error'] is not None or set(out['attr'].keys()) != {1, 4, 14 if reach else 15}:
+        return False
+    got = out['attr'][14 if reach else 15]
+    if tuple(got['afi_safi']) != (afi, safi) or out['attr'][4] != rb:
+        return False
+    if reach:
+        if P.get('check_nh', True) and not same(got['nexthop'], nh_exp):
+            return False
+        return same(got['nlri'], texts)
+    return same(got['withdraw'], texts)
+
+
 def obligations(tier, seed):
     quick = tier == 'quick'
     out = []
@@ -266,5 +352,21 @@ def obligations(tier, seed):
                           {'kind': 'fixed-length', 'code': code, 'len': n}, covers=['parsed']))
     out.append(ob('C09/malformed/prefix-length', 'ob_malformed', {'kind': 'prefix-length'}, covers=['parsed']))
     out.append(ob('C09/malformed/withdraw-prefix-length', 'ob_malformed', {'kind': 'withdraw-prefix-length'}, covers=['parsed']))
+    # the C07 families through the reference encoder: 0, 1 or 2 routes, both directions, extended-length flag
+    for fam in ('ipv6', 'lu4', 'vpnv4'):
+        for d in ('reach', 'unreach'):
+            if fam == 'lu4' and d == 'unreach':
+                continue      # not decoded at all: the open C07 finding labeled-unicast-mp-unreach-not-decoded
+            for plens in ([], [0], [24], [9, 32] if fam != 'ipv6' else [60, 128]):
+                if fam == 'ipv6' and plens == [24]:
+                    plens = [64]
+                for ext in ((False, True) if (not quick or len(plens) == 1) else (False,)):
+                    out.append(ob('C09/mp/%s/%s/plens=%s/ext=%s' % (fam, d, '-'.join(map(str, plens)) or 'none', ext), 'ob_mp',
+                                  {'family': fam, 'dir': d, 'n': len(plens), 'plens': plens, 'ext': ext}, covers=['parsed'],
+                                  cap=150 if quick else 400))
+    for fam in ('vpnv6', 'evpn', 'flowspec'):
+        for d in ('reach', 'unreach'):
+            out.append(ob('C09/mp/%s/%s/plens=none' % (fam, d), 'ob_mp', {'family': fam, 'dir': d, 'n': 0, 'plens': []},
+                          covers=['parsed']))
     out.append(ob('C09/session/update-vs-error', 'ob_session', {}, covers=['good', 'bad']))
     return out
